@@ -13,6 +13,13 @@ def recOf (w1 : World) (a : Oid) (op : Op) (vs : Option (Oid × Name × Ans)) (c
 def recOfR (a : Oid) (op : Op) (x : World × List Creation × Option (Oid × Name × Ans) × Res) : StepRec :=
   recOf x.1 a op x.2.2.1 x.2.1 x.2.2.2
 
+theorem noEuid_of_all {P : List Obj} {r : StepRec} (h : r.creations.all (fun c => c.ans.isNone) = true) :
+    noEuidClause P r = true := by
+  unfold noEuidClause
+  cases getO P r.actor with
+  | none => rfl
+  | some A => simp only; split <;> simp_all
+
 theorem stepOK_of {bb : Option Name} {P : List Obj} {w1 : World} {a : Oid} {op : Op}
     {vs : Option (Oid × Name × Ans)} {cs : List Creation} {res : Res} (hinv : Inv w1)
     (H : ∀ e ∈ w1.objs, getO P e.oid = some e ∨ isMade (recOf w1 a op vs cs res) e.oid = true ∨
@@ -48,7 +55,7 @@ theorem stepOK_same {bb : Option Name} {w : World} (hw : Inv w) (w1 : World) (ho
 theorem actor_missing_ok {bb : Option Name} {w : World} (hw : Inv w) (a : Oid) (op : Op)
     (hA : getO w.objs a = none) : StepOK bb w.objs w (recOf w a op none [] .nobj) := by
   apply stepOK_same hw w rfl
-  · simp [noEuidClause, recOf, hA]
+  · exact noEuid_of_all (by simp [recOf])
   · unfold exportClause; simp only [recOf]; cases op <;> simp [hA]
   · unfold askedClause; simp only [recOf]; cases op <;> simp [hA]
 
@@ -70,12 +77,12 @@ theorem seteuidInt_ok {bb : Option Name} {w : World} (hw : Inv w) {a : Oid} {A :
       · exact Or.inl h
     · intro c hc; simp at hc
     · simp [creationClause, recOf]
-    · simp [noEuidClause, recOf, hA]
+    · exact noEuid_of_all (by simp [recOf])
     · simp [exportClause, recOf]
     · simp [askedClause, recOf]
   · simp only [hn, if_false]
     apply stepOK_same hw w rfl
-    · simp [noEuidClause, recOf, hA]
+    · exact noEuid_of_all (by simp [recOf])
     · simp [exportClause, recOf]
     · simp [askedClause, recOf]
 
@@ -89,7 +96,7 @@ theorem seteuidStr_ok {bb : Option Name} {w : World} (hw : Inv w) {a : Oid} {A :
   by_cases he : pol.vs i A.oid s = .err
   · simp only [he, if_true]
     apply stepOK_same hw w rfl
-    · simp [noEuidClause, recOf, hA]
+    · exact noEuid_of_all (by simp [recOf])
     · simp [exportClause, recOf]
     · simp [askedClause, recOf, hA]
   · simp only [he, if_false]
@@ -106,12 +113,12 @@ theorem seteuidStr_ok {bb : Option Name} {w : World} (hw : Inv w) {a : Oid} {A :
         · exact Or.inl h
       · intro c hc; simp at hc
       · simp [creationClause, recOf]
-      · simp [noEuidClause, recOf, hA]
+      · exact noEuid_of_all (by simp [recOf])
       · simp [exportClause, recOf]
       · simp [askedClause, recOf, hA]
     · simp only [hap]
       apply stepOK_same hw w rfl
-      · simp [noEuidClause, recOf, hA]
+      · exact noEuid_of_all (by simp [recOf])
       · simp [exportClause, recOf]
       · simp [askedClause, recOf, hA]
 
@@ -122,7 +129,7 @@ theorem export_ok {bb : Option Name} {w : World} (hw : Inv w) {a : Oid} {A : Obj
   cases hT : getO w.objs t with
   | none =>
     apply stepOK_same hw w rfl
-    · simp [noEuidClause, recOf, hA]
+    · exact noEuid_of_all (by simp [recOf])
     · simp [exportClause, recOf, hA, hT]
     · simp [askedClause, recOf]
   | some T =>
@@ -131,14 +138,14 @@ theorem export_ok {bb : Option Name} {w : World} (hw : Inv w) {a : Oid} {A : Obj
     by_cases h1 : A.euid = none
     · simp only [h1, if_true]
       apply stepOK_same hw w rfl
-      · simp [noEuidClause, recOf, hA]
+      · exact noEuid_of_all (by simp [recOf])
       · simp [exportClause, recOf, hA, hT, h1]
       · simp [askedClause, recOf]
     · simp only [h1, if_false]
       by_cases h2 : T.euid ≠ none
       · rw [if_pos h2]
         apply stepOK_same hw w rfl
-        · simp [noEuidClause, recOf, hA]
+        · exact noEuid_of_all (by simp [recOf])
         · simp [exportClause, recOf, hA, hT, h1]
         · simp [askedClause, recOf]
       · have h2' : T.euid = none := by simpa using h2
@@ -158,7 +165,7 @@ theorem export_ok {bb : Option Name} {w : World} (hw : Inv w) {a : Oid} {A : Obj
           · exact Or.inl h
         · intro c hc; simp at hc
         · simp [creationClause, recOf]
-        · simp [noEuidClause, recOf, hA]
+        · exact noEuid_of_all (by simp [recOf])
         · simp [exportClause, recOf, hA, hT, hsome, h2', h1]
         · simp [askedClause, recOf]
 
@@ -168,14 +175,14 @@ theorem dest_ok {bb : Option Name} {w : World} (hw : Inv w) {a : Oid} {A : Obj} 
   cases hT : getO w.objs t with
   | none =>
     apply stepOK_same hw w rfl
-    · simp [noEuidClause, recOf, hA]
+    · exact noEuid_of_all (by simp [recOf])
     · simp [exportClause, recOf]
     · simp [askedClause, recOf]
   | some T =>
     by_cases hm : t = masterOid
     · simp only [hm, if_true]
       apply stepOK_same hw w rfl
-      · simp [noEuidClause, recOf, hA]
+      · exact noEuid_of_all (by simp [recOf])
       · simp [exportClause, recOf]
       · simp [askedClause, recOf]
     · simp only [hm, if_false]
@@ -188,7 +195,7 @@ theorem dest_ok {bb : Option Name} {w : World} (hw : Inv w) {a : Oid} {A : Obj} 
         exact Or.inl (frame_delO hw.wf hmem)
       · intro c hc; simp at hc
       · simp [creationClause, recOf]
-      · simp [noEuidClause, recOf, hA]
+      · exact noEuid_of_all (by simp [recOf])
       · simp [exportClause, recOf]
       · simp [askedClause, recOf]
 
@@ -198,7 +205,7 @@ theorem reload_ok {bb : Option Name} {w : World} (hw : Inv w) {a : Oid} {A : Obj
   cases hT : getO w.objs t with
   | none =>
     apply stepOK_same hw w rfl
-    · simp [noEuidClause, recOf, hA]
+    · exact noEuid_of_all (by simp [recOf])
     · simp [exportClause, recOf]
     · simp [askedClause, recOf]
   | some T =>
@@ -207,7 +214,7 @@ theorem reload_ok {bb : Option Name} {w : World} (hw : Inv w) {a : Oid} {A : Obj
     by_cases hm : t = masterOid
     · simp only [hm, if_true]
       apply stepOK_same hw w rfl
-      · simp [noEuidClause, recOf, hA]
+      · exact noEuid_of_all (by simp [recOf])
       · simp [exportClause, recOf]
       · simp [askedClause, recOf]
     · simp only [hm, if_false]
@@ -225,7 +232,7 @@ theorem reload_ok {bb : Option Name} {w : World} (hw : Inv w) {a : Oid} {A : Obj
         subst hmade
         simp [getO_setO]
       · simp [creationClause, recOf, madeOk, hTo, hT]
-      · simp [noEuidClause, recOf, hA]
+      · exact noEuid_of_all (by simp [recOf])
       · simp [exportClause, recOf]
       · simp [askedClause, recOf]
 
@@ -301,6 +308,13 @@ theorem load_ok {w : World} (hw : Inv w) {a : Oid} {A : Obj} (hA : getO w.objs a
   have hAo := (getO_some hA).2
   subst hAo
   unfold doLoad recOfR
+  by_cases hgd : (p.name ∉ w.loaded ∨ p.name ∈ w.half) ∧ getO w.objs p.oid ≠ none
+  · rw [if_pos hgd]
+    apply stepOK_same hw w rfl
+    · exact noEuid_of_all (by simp [recOf])
+    · simp [exportClause, recOf]
+    · simp [askedClause, recOf]
+  rw [if_neg hgd]
   by_cases hl : p.name ∈ w.loaded
   · rw [if_pos hl]
     by_cases hh : p.name ∈ w.half
@@ -319,26 +333,26 @@ theorem load_ok {w : World} (hw : Inv w) {a : Oid} {A : Obj} (hA : getO w.objs a
         subst hmade
         simp [getO_setO]
       · simp [creationClause, recOf, madeOk]
-      · simp [noEuidClause, recOf, hA]
+      · exact noEuid_of_all (by simp [recOf])
       · simp [exportClause, recOf]
       · simp [askedClause, recOf]
     · rw [if_neg hh]
       apply stepOK_same hw w rfl
-      · simp [noEuidClause, recOf, hA]
+      · exact noEuid_of_all (by simp [recOf])
       · simp [exportClause, recOf]
       · simp [askedClause, recOf]
   · rw [if_neg hl]
     by_cases hguard : A.oid ≠ masterOid ∧ A.euid = none
     · rw [if_pos hguard]
       apply stepOK_same hw w rfl
-      · simp [noEuidClause, recOf, hA]
+      · exact noEuid_of_all (by simp [recOf])
       · simp [exportClause, recOf]
       · simp [askedClause, recOf]
     · rw [if_neg hguard]
       by_cases hex : p.exists = false
       · rw [if_pos hex]
         apply stepOK_same hw w rfl
-        · simp [noEuidClause, recOf, hA]
+        · exact noEuid_of_all (by simp [recOf])
         · simp [exportClause, recOf]
         · simp [askedClause, recOf]
       · rw [if_neg hex]
@@ -409,153 +423,5 @@ theorem stepOK_created {cfg : Cfg} {w : World} {A : Obj} (_hw : Inv w) (hA : get
   · simp [noEuidClause, recOf, hA, hguard]
   · cases op <;> simp [exportClause, recOf] <;> simp [isCreatingOp] at hop
   · cases op <;> simp [askedClause, recOf] <;> simp [isCreatingOp] at hop
-
-/-- second phase of clone_object: the clone itself, from an intermediate world `w1` whose new objects are `cs0` -/
-theorem clone_phase2 {cfg : Cfg} {pol : Policy} {i : Nat} {w w1 : World} {A : Obj} (hw : Inv w)
-    (hA : getO w.objs A.oid = some A) (hguard : ¬ (A.oid ≠ masterOid ∧ A.euid = none))
-    (newOid : Oid) (p : Path) (cs0 : List Creation) (name : String) (hinv1 : Inv w1)
-    (H1 : ∀ e ∈ w1.objs, getO w.objs e.oid = some e ∨ ∃ c ∈ cs0, c.made = some e)
-    (M1 : ∀ c ∈ cs0, ∀ m, c.made = some m → getO w1.objs m.oid = some m ∧ m.oid ≠ newOid)
-    (C1 : ∀ c ∈ cs0, ∀ r : StepRec, r.op = .clone newOid p → r.actor = A.oid → madeOk cfg.bb w.objs r c = true)
-    (w2 : World) (hw2 : w2.objs = w1.objs) :
-    StepOK cfg.bb w.objs (create cfg pol i w2 A newOid name false).1
-      (recOf (create cfg pol i w2 A newOid name false).1 A.oid (.clone newOid p) none
-        (cs0 ++ [(create cfg pol i w2 A newOid name false).2.1])
-        (if (create cfg pol i w2 A newOid name false).2.2 = true then .oid newOid else .err .policy)) := by
-  by_cases hcf : pol.cf i name = .err
-  · obtain ⟨e1, e2, e3, _⟩ := create_err (cfg := cfg) (w := w2) (A := A) (oid := newOid) (bp := false) hcf
-    rw [e2, e3]
-    apply stepOK_created hw hA hguard _ (by simp [isCreatingOp])
-    · exact Inv_same hinv1 _ (e1.trans hw2)
-    · intro e he
-      rw [e1, hw2] at he
-      rcases H1 e he with h | ⟨c, hc, hm⟩
-      · exact Or.inl h
-      · exact Or.inr ⟨c, by simp [hc], hm⟩
-    · intro c hc m hm
-      simp only [List.mem_append, List.mem_singleton] at hc
-      rcases hc with hc | hc
-      · rw [e1, hw2]; exact (M1 c hc m hm).1
-      · subst hc; simp at hm
-    · intro c hc
-      simp only [List.mem_append, List.mem_singleton] at hc
-      rcases hc with hc | hc
-      · exact C1 c hc _ rfl rfl
-      · subst hc; simp [madeOk]
-  · obtain ⟨e1, e2, e3⟩ := create_ok (cfg := cfg) (w := w2) (A := A) (oid := newOid) (bp := false) hcf
-    have hg := giveUid_spec cfg A (pol.cf i name)
-    rw [e2, e3]
-    apply stepOK_created hw hA hguard _ (by simp [isCreatingOp])
-    · exact Inv_setO hinv1 _ hg.1 _ (by rw [e1, hw2])
-    · intro e he
-      rw [e1, hw2] at he
-      rcases frame_setO hinv1.wf he with h | h
-      · exact Or.inr ⟨{ name := name, ans := some (pol.cf i name), made := some e }, by simp [h], rfl⟩
-      · have he' : e ∈ w1.objs := (getO_some h).1
-        rcases H1 e he' with h' | ⟨c, hc, hm⟩
-        · exact Or.inl h'
-        · exact Or.inr ⟨c, by simp [hc], hm⟩
-    · intro c hc m hm
-      simp only [List.mem_append, List.mem_singleton] at hc
-      rcases hc with hc | hc
-      · have := M1 c hc m hm
-        rw [e1, hw2, getO_setO]
-        have hne : ¬ newOid = m.oid := fun x => this.2 x.symm
-        simp [hne, this.1]
-      · subst hc
-        simp at hm
-        subst hm
-        simp [e1, getO_setO]
-    · intro c hc
-      simp only [List.mem_append, List.mem_singleton] at hc
-      rcases hc with hc | hc
-      · exact C1 c hc _ rfl rfl
-      · subst hc
-        exact madeOk_created (by simp [recOf, isCreatingOp]) (by simpa [recOf] using hA)
-          (by simpa [recOf] using guard_or hguard) hcf hg.2
-
-theorem clone_ok {w : World} (hw : Inv w) {a : Oid} {A : Obj} (hA : getO w.objs a = some A)
-    (cfg : Cfg) (pol : Policy) (i : Nat) (newOid : Oid) (p : Path) :
-    StepOK cfg.bb w.objs (doClone cfg pol i w A newOid p).1 (recOfR a (.clone newOid p) (doClone cfg pol i w A newOid p)) := by
-  have hAo := (getO_some hA).2
-  subst hAo
-  unfold doClone recOfR
-  by_cases hr : newOid ∈ reservedOids
-  · rw [if_pos hr]
-    apply stepOK_same hw w rfl
-    · simp [noEuidClause, recOf, hA]
-    · simp [exportClause, recOf]
-    · simp [askedClause, recOf]
-  · rw [if_neg hr]
-    by_cases hguard : A.oid ≠ masterOid ∧ A.euid = none
-    · rw [if_pos hguard]
-      apply stepOK_same hw w rfl
-      · simp [noEuidClause, recOf, hA]
-      · simp [exportClause, recOf]
-      · simp [askedClause, recOf]
-    · rw [if_neg hguard]
-      by_cases hl : p.name ∈ w.loaded
-      · simp only [if_pos hl, if_false, Bool.true_eq_false, List.nil_append]
-        have := clone_phase2 (cfg := cfg) (pol := pol) (i := i) hw hA hguard newOid p [] (p.name ++ "#" ++ toString w.cloneSeq) hw
-          (fun e he => Or.inl (hw.wf e he)) (by simp) (by simp) { w with cloneSeq := w.cloneSeq + 1 } rfl
-        simpa using this
-      · simp only [if_neg hl]
-        by_cases hex : p.exists = false
-        · simp only [if_pos hex, if_true, List.isEmpty_nil]
-          apply stepOK_same hw w rfl
-          · simp [noEuidClause, recOf, hA]
-          · simp [exportClause, recOf]
-          · simp [askedClause, recOf]
-        · simp only [if_neg hex]
-          have hex' : p.exists = true := by simpa using hex
-          by_cases hcf : pol.cf i p.name = .err
-          · obtain ⟨e1, e2, e3, _⟩ := create_err (cfg := cfg) (w := w) (A := A) (oid := p.oid) (bp := true) hcf
-            simp only [e2, e3, if_true, List.isEmpty_cons, Bool.false_eq_true, if_false]
-            apply stepOK_created hw hA hguard _ (by simp [isCreatingOp])
-            · exact Inv_same hw _ e1
-            · intro e he
-              rw [e1] at he
-              exact Or.inl (hw.wf e he)
-            · intro c hc m hm
-              simp at hc
-              subst hc
-              simp at hm
-            · intro c hc
-              simp at hc
-              subst hc
-              simp [madeOk]
-          · obtain ⟨e1, e2, e3⟩ := create_ok (cfg := cfg) (w := w) (A := A) (oid := p.oid) (bp := true) hcf
-            have hg := giveUid_spec cfg A (pol.cf i p.name)
-            simp only [e2, e3, Bool.true_eq_false, if_false]
-            have hne : p.oid ≠ newOid := fun x => hr (x ▸ exists_reserved hex')
-            have := clone_phase2 (cfg := cfg) (pol := pol) (i := i) hw hA hguard newOid p
-              [{ name := p.name, ans := some (pol.cf i p.name),
-                 made := some { oid := p.oid, name := p.name, uid := (giveUid cfg A (pol.cf i p.name)).1,
-                                euid := (giveUid cfg A (pol.cf i p.name)).2 } }]
-              (p.name ++ "#" ++ toString (create cfg pol i w A p.oid p.name true).1.cloneSeq)
-              (w1 := (create cfg pol i w A p.oid p.name true).1)
-              (Inv_setO hw _ hg.1 _ e1)
-              (by
-                intro e he
-                rw [e1] at he
-                rcases frame_setO hw.wf he with h | h
-                · exact Or.inr ⟨{ name := p.name, ans := some (pol.cf i p.name), made := some e }, by simp [h], rfl⟩
-                · exact Or.inl h)
-              (by
-                intro c hc m hm
-                simp at hc
-                subst hc
-                simp at hm
-                subst hm
-                exact ⟨by simp [e1, getO_setO], hne⟩)
-              (by
-                intro c hc r hop hact
-                simp at hc
-                subst hc
-                exact madeOk_created (by simp [hop, isCreatingOp]) (by simpa [hact] using hA)
-                  (by simpa [hact] using guard_or hguard) hcf hg.2)
-              { (create cfg pol i w A p.oid p.name true).1 with
-                cloneSeq := (create cfg pol i w A p.oid p.name true).1.cloneSeq + 1 } rfl
-            simpa using this
 
 end NV.C20
